@@ -1,4 +1,5 @@
 import ScVerif.C13.Cause
+import ScVerif.C13.Select
 /-!
 # C13 — a call on an ended context reports cancellation / deadline expiry AS SUCH, whatever the cause
 
@@ -91,5 +92,56 @@ example : ∀ site : CtxSite,
     Wrap.callerReads (Wrap.siteErrorByCause site (ctxRun [⟨.cancel, some (.plain "operator gave up")⟩]))
       = .status 2 "operator gave up" := by
   intro site; cases site <;> rfl
+
+/-- **The chain view is sound**: in ANY family of contexts (any "is derived from" relation `below`), under ANY
+sequence of ends anywhere in the family, the state of context `k` (its `Err()` and `Cause`) is the fold over the ends
+of `k` itself and of its ancestors only, in the order they happened — so every theorem above, stated for sequences
+of ends of the chain, holds for the call's context inside any family (siblings, uncles, children of its own). -/
+theorem C13_context_family_chain_view (below : Nat → Nat → Bool) (evs : List (Nat × CtxEnd)) (k : Nat) :
+    famRun below (fun _ => none) evs k = ctxRun ((evs.filter fun ev => below ev.1 k).map (·.2)) :=
+  famRun_chain below evs _ k
+
+/-- An end of a context the call's context is not derived from (a sibling, an uncle, a child) is invisible to it. -/
+theorem C13_unrelated_context_end_invisible (below : Nat → Nat → Bool) (evs : List (Nat × CtxEnd)) (n k : Nat)
+    (e : CtxEnd) (h : below n k = false) :
+    famRun below (fun _ => none) (evs ++ [(n, e)]) k = famRun below (fun _ => none) evs k := by
+  simp [famRun, List.foldl_append, famStep, h]
+
+/-! ### The handler's context ends with the call (a finished call leaves no goroutine behind)
+
+A handler commonly ties helper goroutines to its context (`go func() { <-ctx.Done(); unsubscribe() }()`).  A gRPC
+server ends the handler's context when the handler returns.  `w` is ANY state of the stream. -/
+
+/-- **The handler's context ends exactly when a gRPC server's does**, for every call shape and state: when the
+caller's context ends, and when the handler has returned (`Close`). -/
+theorem C13_handler_context_ends_with_call (shape : Shape) (w : Wrap.State) :
+    Wrap.handlerCtxDone (Wrap.handlerCtxOf false shape) w = GrpcRef.handlerCtxDone w := by
+  cases shape <;> rfl
+
+/-- Once the handler has returned its context has ended, whatever the caller does with its own context. -/
+theorem C13_handler_context_ended_after_return (shape : Shape) (w : Wrap.State) (h : w.closed.isSome = true) :
+    Wrap.handlerCtxDone (Wrap.handlerCtxOf false shape) w = true := by
+  cases shape <;> simp [Wrap.handlerCtxOf, Wrap.handlerCtxDone, h]
+
+/-- The handler's context is the one the stream's own blocking calls watch (`ctxDone`, Select.lean). -/
+theorem C13_handler_context_is_stream_context (shape : Shape) (w : Wrap.State) :
+    Wrap.handlerCtxDone (Wrap.handlerCtxOf false shape) w = Wrap.ctxDone w := by
+  cases shape <;> rfl
+
+/-- **The defect repaired in round 8** (on the code before the repair): `Invoke` handed the handler the caller's
+context, so after the handler of a unary call had returned its context was still live for as long as the caller's —
+for every state in which the caller's context has not ended — where a gRPC server's has ended. -/
+theorem C13_legacy_unary_handler_context_outlives_call (w : Wrap.State) (hc : w.closed.isSome = true)
+    (hl : w.ctxErr = none) :
+    Wrap.handlerCtxDone (Wrap.handlerCtxOf true .unary) w = false ∧ GrpcRef.handlerCtxDone w = true := by
+  simp [Wrap.handlerCtxOf, Wrap.handlerCtxDone, GrpcRef.handlerCtxDone, hc, hl]
+
+/-- ... and only there: every other shape (the unary method through `NewStream` included) was right before. -/
+theorem C13_legacy_handler_context_other_shapes (shape : Shape) (w : Wrap.State) (h : shape ≠ .unary) :
+    Wrap.handlerCtxDone (Wrap.handlerCtxOf true shape) w = GrpcRef.handlerCtxDone w := by
+  cases shape <;> first | rfl | exact absurd rfl h
+
+/-- Non-vacuity: a finished call on a live caller context. -/
+example : ∃ w : Wrap.State, w.closed.isSome = true ∧ w.ctxErr = none := ⟨{ closed := some .ok }, rfl, rfl⟩
 
 end ScVerif.C13
